@@ -5,7 +5,7 @@ use pdatastructs::reservoirsampling::ReservoirSampling;
 use serde_json::json;
 use std::sync::Mutex;
 
-pub const RULE: &str = "per (k, n) cell T independent RNG seeds; the stream is the position ids 0..n; inclusion counts per position (n <= 600) or per regional bin (first k, [k,2k), [2k,4k), position 4k, geometric bins, last k, last item). n <= 4k+1: every cell against exactly k/n (|z| > 5 flags; confirmation on fresh seeds with 8x trials, |z| > 6, same sign). n > 4k+1: |freq/(k/n) - 1| must stay within max(analytic allowance C/k*(1+ln(n/4k)), bias of the harness's own implementation of the documented algorithm on independent seeds) plus 5-6 sigma. selected cells are repeated on a sampler reused after clear() and with the stream delivered through extend() in random batches (with and without exact size hints) interleaved with add(); additionally k=1 with n = 4x10^7 (n/k > 2^25) and a dispersion (chi-square) test over the first k positions for k = 3*2^19, n = 32k; non-trivial = one (k, n, seed) trial with n > k; distinct = (cell, trial) pairs";
+pub const RULE: &str = "per (k, n) cell T independent RNG seeds; the stream is the position ids 0..n; inclusion counts per position (n <= 600) or per regional bin (first k, [k,2k), [2k,4k), position 4k, geometric bins, last k, last item). n <= 4k+1: every cell against exactly k/n (|z| > 5 flags; confirmation on fresh seeds with 8x trials, |z| > 6, same sign). n > 4k+1: |freq/(k/n) - 1| must stay within max(analytic allowance C/k*(1+ln(n/4k)), bias of the harness's own implementation of the documented algorithm on independent seeds) plus 5-6 sigma. selected cells are repeated on a sampler reused after clear() and with the stream delivered through extend() in random batches (with and without exact size hints) interleaved with add(); k = 1024 and 4096 at n = 4k+1, 8k, 32k with 16 000 (64 000) trials (relative resolution ~0.1 % per region against an allowance of 0.04-0.3 %); additionally k=1 with n = 4x10^7 (n/k > 2^25) and a dispersion (chi-square) test over the first k positions for k = 3*2^19, n = 32k; non-trivial = one (k, n, seed) trial with n > k; distinct = (cell, trial) pairs";
 pub const ASSUMPTIONS: &[&str] = &[
     "binomial variance is used for bins (conservative: inclusions of different positions are negatively correlated)",
     "the reference sampler is the documented algorithm: Algorithm R up to 4k items, then geometric gaps with p = k/(i+1) frozen per gap",
@@ -17,7 +17,14 @@ pub const C_ALLOW: f64 = 1.0;
 
 const KS: [usize; 8] = [1, 2, 3, 5, 8, 16, 64, 100];
 
+/// big reservoirs: the allowance C/k is tiny there, so a small k-independent excess (a gap drawn
+/// from a slightly stale probability, say) stands out - given enough trials to resolve 0.1 %
+const BIG_KS: [usize; 2] = [1024, 4096];
+
 fn ns_for(k: usize, tier: Tier) -> Vec<usize> {
+    if k >= 1024 {
+        return vec![4 * k + 1, 8 * k, 32 * k];
+    }
     let mut v = vec![k + 1, k + 2, 2 * k, 4 * k - 1, 4 * k, 4 * k + 1, 4 * k + 2, 5 * k, 6 * k, 10 * k, 50 * k];
     if k == 1 {
         // n/k beyond 2^25: gap arithmetic carried out in too little precision shows only here
@@ -319,7 +326,7 @@ pub fn run(ctx: &Ctx) -> Report {
     let budget: f64 = ctx.tier.pick(1.6e7, 2e8); // adds per cell
     let mut cells_json = vec![];
     let mut worst = [0f64; 3];
-    for &k in &KS {
+    for &k in KS.iter().chain(BIG_KS.iter()) {
         for n in ns_for(k, ctx.tier) {
             for rk in [RngKind::Fast, RngKind::ChaCha, RngKind::FastAfterClear, RngKind::FastExtendBatches] {
                 if rk == RngKind::FastExtendBatches && !((k == 8 || k == 3 || k == 64) && n <= 100 * k && n > 2 * k) {
@@ -338,7 +345,7 @@ pub fn run(ctx: &Ctx) -> Report {
                     }
                 }
                 let b = if rk != RngKind::Fast { budget / 8.0 } else { budget };
-                let trials = if n >= 10_000_000 { ctx.tier.pick(8, 40) } else { ((b / n as f64) as usize).clamp(2000, 4_000_000) };
+                let trials = if k >= 1024 { ctx.tier.pick(16_000, 64_000) } else if n >= 10_000_000 { ctx.tier.pick(8, 40) } else { ((b / n as f64) as usize).clamp(2000, 4_000_000) };
                 let (bounds, names) = bins(k, n);
                 let mut counts = run_trials(ctx, k, n, trials, 1, rk, &bounds);
                 rep.merge(std::mem::take(&mut counts.hooks));
